@@ -346,6 +346,10 @@ class Scenario:
                 vsas = [rc.grouped(260, [rc.u32(266, 10415), rc.u32(259, a)]) for a in napps_auth] + \
                        [rc.grouped(260, [rc.u32(266, 10415), rc.u32(258, a)]) for a in napps_acct]
                 return env.cer(host=s.host, acct=(), auth=(), hbh=hbh, e2e=e2e, extra=vsas)
+            if var == "onlyacct":   # a proper subset of what the node offers: its accounting applications only
+                return env.cer(host=s.host, acct=napps_acct, auth=(), hbh=hbh, e2e=e2e)
+            if var == "onlyauth":   # ... its authentication applications only
+                return env.cer(host=s.host, acct=(), auth=napps_auth, hbh=hbh, e2e=e2e)
             if var == "nocommon":
                 return env.cer(host=s.host, acct=(99,), auth=(98,), hbh=hbh, e2e=e2e)
             if var == "crosskind":      # the node's auth ids offered as acct ids and vice versa: nothing is shared
